@@ -46,6 +46,11 @@ type Finding struct {
 	What     string `json:"what,omitempty"`
 	Commit   string `json:"commit,omitempty"`
 	Note     string `json:"note,omitempty"`
+	// ShapesFile (relative to the root) narrows a |* entry: it then lists only
+	// the signatures found in that committed file, one per line. A signature of
+	// the family that is not in the file is a violation like any other.
+	ShapesFile string `json:"shapes_file,omitempty"`
+	shapes     map[string]bool
 }
 
 // LoadFindings reads known_findings.txt.
@@ -72,6 +77,18 @@ func LoadFindings() ([]Finding, error) {
 		if err := json.Unmarshal([]byte(line), &k); err != nil {
 			return nil, fmt.Errorf("known_findings.txt:%d: %v", ln, err)
 		}
+		if k.ShapesFile != "" {
+			b, err := os.ReadFile(filepath.Join(Root, k.ShapesFile))
+			if err != nil {
+				return nil, fmt.Errorf("known_findings.txt:%d: %v", ln, err)
+			}
+			k.shapes = map[string]bool{}
+			for _, l := range strings.Split(string(b), "\n") {
+				if l = strings.TrimRight(l, "\r"); l != "" && !strings.HasPrefix(l, "#") {
+					k.shapes[l] = true
+				}
+			}
+		}
 		out = append(out, k)
 	}
 	return out, sc.Err()
@@ -84,7 +101,10 @@ func (k *Finding) matches(prop, sig string) bool {
 	}
 	if strings.HasSuffix(k.Sig, "|*") {
 		p := strings.TrimSuffix(k.Sig, "*")
-		return strings.HasPrefix(sig, p) || sig == strings.TrimSuffix(p, "|")
+		if !(strings.HasPrefix(sig, p) || sig == strings.TrimSuffix(p, "|")) {
+			return false
+		}
+		return k.shapes == nil || k.shapes[sig]
 	}
 	return k.Sig == sig
 }
